@@ -143,6 +143,43 @@ fn color_u8_add_saturates() {
     assert!(other.add(&diff).0 == c);
 }
 
+// @ob props=C16 tier=quick kind=P cfg=core-std timeout=600
+// @fn Color3f<Rgb>::to_hsl ; Color4f<Rgba>::to_hsla
+// @clause every float gray in [0, 1] has zero saturation and hue and keeps its lightness exactly; to_hsl does not panic on it; the RGBA variant keeps alpha
+#[cfg(not(verif_skip_color_grays_f32))]
+#[kani::proof]
+#[kani::unwind(5)]
+fn color_grays_f32() {
+    let v: F = kani::any();
+    kani::assume(v >= 0.0 && v <= 1.0);
+    let g = gray(v).to_hsl();
+    kani::cover!(v > 0.2 && v < 0.8);
+    assert!(g.h() == 0.0 && g.s() == 0.0 && g.l() == v);
+    let a: F = kani::any();
+    let ga = rgba(v, v, v, a).to_hsla();
+    assert!(ga.s() == 0.0 && ga.l() == v && ga.a().to_bits() == a.to_bits());
+}
+
+// @ob props=C16 tier=quick kind=P cfg=core-std-rel timeout=1200
+// @fn Color3f<Rgb>::to_hsl
+// @clause for every in-range float RGB colour (all f32 triples in [0,1]^3, black, white, near-black and near-white included) saturation and lightness are finite and in [0, 1], lightness is (max+min)/2, and grays have zero saturation; built with debug assertions off because the hue goes through rem_euclid (`%`), which CBMC over-approximates
+#[cfg(not(verif_skip_color_to_hsl_f32_sat_light))]
+#[kani::proof]
+#[kani::unwind(5)]
+fn color_to_hsl_f32_sat_light() {
+    let c: [F; 3] = kani::any();
+    kani::assume(c[0] >= 0.0 && c[0] <= 1.0 && c[1] >= 0.0 && c[1] <= 1.0 && c[2] >= 0.0 && c[2] <= 1.0);
+    let x = rgb(c[0], c[1], c[2]).to_hsl();
+    kani::cover!(c[0] < 1e-30 && c[1] > c[0]);
+    let mx = c[0].max(c[1]).max(c[2]);
+    let mn = c[0].min(c[1]).min(c[2]);
+    assert!(x.s() >= 0.0 && x.s() <= 1.0);
+    assert!(x.l() >= 0.0 && x.l() <= 1.0 && x.l() == (mx + mn) / 2.0);
+    if mx == mn {
+        assert!(x.s() == 0.0);
+    }
+}
+
 // @ob props=C16 tier=quick kind=B cfg=core-std-rel timeout=900
 // @fn Color3f<Hsl>::to_rgb
 // @bound full saturation and mid lightness (s = 1, l = 1/2, so chroma 1 and offset 0 are constants); complete in the hue (all f32 in [0, 1]); built with debug assertions off because the in-code range debug_assert! on the middle channel depends on `%`, which CBMC over-approximates
